@@ -251,7 +251,9 @@ deriving Repr, DecidableEq
 
 structure WState where
   wbuf : Bytes := []                -- `write_buf`
-  written : Bytes := []             -- every byte the transport has accepted, in order
+  staged : Bytes := []              -- bytes the transport accepted (`poll_write`) and holds until its
+                                    -- `poll_flush` (or `poll_shutdown`) completes (a buffering transport)
+  written : Bytes := []             -- every byte that reached the wire (flushed by the transport), in order
   accepted : List Bytes := []       -- ghost: encodings of the items `start_send` accepted, in order
   wscript : List Wr := []           -- answers to `poll_write`; exhausted = accept everything
   fscript : List Fl := []           -- answers to `poll_flush`; exhausted = ok
@@ -274,25 +276,26 @@ def wsend {I} (enc : Enc I) (item : I) (s : WState) : WRes × WState :=
   | .error k => (.err k, s)
   | .ok e => (.ok, { s with wbuf := s.wbuf ++ e, accepted := s.accepted ++ [e] })
 
-/-- the transport's `poll_flush` -/
+/-- the transport's `poll_flush`: when it completes, everything staged is on the wire -/
 def ioFlush (s : WState) : WRes × WState :=
   match s.fscript with
-  | [] => (.ok, { s with nFlush := s.nFlush + 1 })
-  | .ok :: t => (.ok, { s with fscript := t, nFlush := s.nFlush + 1 })
+  | [] => (.ok, { s with written := s.written ++ s.staged, staged := [], nFlush := s.nFlush + 1 })
+  | .ok :: t => (.ok, { s with written := s.written ++ s.staged, staged := [], fscript := t, nFlush := s.nFlush + 1 })
   | .pending :: t => (.pending, { s with fscript := t, nFlush := s.nFlush + 1 })
   | .err k :: t => (.err k, { s with fscript := t, nFlush := s.nFlush + 1 })
 
-/-- the transport's `poll_shutdown` -/
+/-- the transport's `poll_shutdown` ("invocation of a shutdown implies an invocation of flush":
+when it completes, everything staged is on the wire) -/
 def ioShutdown (s : WState) : WRes × WState :=
   match s.sscript with
-  | [] => (.ok, { s with nShutdown := s.nShutdown + 1, shut := true })
-  | .ok :: t => (.ok, { s with sscript := t, nShutdown := s.nShutdown + 1, shut := true })
+  | [] => (.ok, { s with written := s.written ++ s.staged, staged := [], nShutdown := s.nShutdown + 1, shut := true })
+  | .ok :: t => (.ok, { s with written := s.written ++ s.staged, staged := [], sscript := t, nShutdown := s.nShutdown + 1, shut := true })
   | .pending :: t => (.pending, { s with sscript := t, nShutdown := s.nShutdown + 1 })
   | .err k :: t => (.err k, { s with sscript := t, nShutdown := s.nShutdown + 1 })
 
 /-- one `poll_write` of the whole buffer answered with `n` bytes accepted (framed.rs:248–259) -/
 def wrote (s : WState) (t : List Wr) (n : Nat) : WState :=
-  { s with written := s.written ++ s.wbuf.take n, wbuf := s.wbuf.drop n, wscript := t,
+  { s with staged := s.staged ++ s.wbuf.take n, wbuf := s.wbuf.drop n, wscript := t,
            nWrite := s.nWrite + 1 }
 
 /-- `Framed::flush` (framed.rs:237–267): the `while !write_buf.is_empty()` loop with fuel, then the
